@@ -44,8 +44,7 @@ def rule_owned(c, prog):
     c.floor(R, n, 8, "deserialize / next_element call sites")
 
 
-def rule_text(c, prog):
-    R = "C17.text"
+def rule_text(c, prog, R="C17.text"):
     c.rule(R, "Display/FromStr duality: a field printed with {:x} from a signed integer (two's-complement digits) must not be parsed with the signed from_str_radix of the same width (which rejects values >= 2^(n-1)); digit widths of the format equal the slice bounds of the parser")
     for ty in ("rbx_types::unique_id::UniqueId", "rbx_types::referent::Ref"):
         disp = prog.impl_fn("core::fmt::Display", ty, "fmt")
